@@ -28,12 +28,14 @@ func framesDifferOnlyByLowerRounds(full, reset *hg.Frame) bool {
 		if x.Core.Hex() != y.Core.Hex() || x.Core.Signature != y.Core.Signature || x.LamportTimestamp != y.LamportTimestamp {
 			return false
 		}
-		if x.Round != y.Round || x.Witness != y.Witness {
-			if y.Round >= x.Round {
+		if x.Round != y.Round {
+			if y.Round > x.Round {
 				return false
 			}
 			lower++
 		}
+		// (with a lower round for an earlier event of the same creator, a later
+		// event may become that creator's witness of the round at the reset node)
 		return true
 	}
 	for i := range full.Events {
